@@ -1,4 +1,96 @@
-From Coq Require Import ZArith List.
-From LTV.C19 Require Import Model.
-Theorem placeholder_true : True. Proof. exact I. Qed.
-Print Assumptions placeholder_true.
+(* C19 -- theorems (statements only; proofs in Proofs*.v). For all environments E (handler
+   scripts, validity flags, slot budget) and all op lists. [due s e d] = entry e is pending with
+   due time d (a live handle in the heap); Inv = heap order + handle/entry bijection. *)
+From Coq Require Import ZArith List Sorted.
+From LTV.C19 Require Import Model ProofsHeap ProofsSched ProofsRun Proofs.
+Import ListNotations.
+Open Scope Z_scope.
+
+Theorem push_heap_keeps_heap : forall l v, heap_ok l -> heap_ok (push_heap (l ++ [v])) /\ Permutation.Permutation (push_heap (l ++ [v])) (l ++ [v]).
+Proof. exact Proofs.push_heap_keeps_heap. Qed.
+Print Assumptions push_heap_keeps_heap.
+
+Theorem pop_heap_keeps_heap : forall h0 r, heap_ok (h0 :: r) ->
+  heap_ok (heap_pop (h0 :: r)) /\ Permutation.Permutation (h0 :: heap_pop (h0 :: r)) (h0 :: r) /\
+  (forall h, In h (h0 :: r) -> h_time h0 <= h_time h).
+Proof. exact Proofs.pop_heap_keeps_heap. Qed.
+Print Assumptions pop_heap_keeps_heap.
+
+Theorem heap_ok_inv : forall E n ops s' outs, wf_env E n ->
+  run E (init n) ops = (s', outs) -> Inv E s'.
+Proof. exact Proofs.heap_ok_inv. Qed.
+Print Assumptions heap_ok_inv.
+
+Theorem refines : forall E n ops s' outs, wf_env E n ->
+  run E (init n) ops = (s', outs) -> Run E (init n) ops outs s'.
+Proof. exact Proofs.refines. Qed.
+Print Assumptions refines.
+
+Theorem perform_refines : forall E t k s s' evs oc, Inv E s ->
+  perform E k s t = (s', evs, oc) -> Dispatch E t k s evs oc s'.
+Proof. exact ProofsRun.perform_refines. Qed.
+Print Assumptions perform_refines.
+
+Theorem never_early : forall E t k s s' evs oc, Inv E s -> perform E k s t = (s', evs, oc) ->
+  forall e d, In (EFire e d) evs -> d <= t.
+Proof. exact Proofs.never_early. Qed.
+Print Assumptions never_early.
+
+Theorem not_late : forall E t k s s' evs, Inv E s -> perform E k s t = (s', evs, Done) ->
+  forall e d, due s' e d -> t < d.
+Proof. exact Proofs.not_late. Qed.
+Print Assumptions not_late.
+
+Theorem fire_order : forall E t k s s' e d rest oc, Inv E s ->
+  perform E k s t = (s', EFire e d :: rest, oc) ->
+  due s e d /\ d <= t /\ (forall e' d', due s e' d' -> d <= d').
+Proof. exact Proofs.fire_order. Qed.
+Print Assumptions fire_order.
+
+Theorem fire_order_sorted : forall E t k s s' evs oc, Inv E s -> (forall e, script E e = []) ->
+  perform E k s t = (s', evs, oc) -> Sorted Z.le (fired_times evs).
+Proof. exact Proofs.fire_order_sorted. Qed.
+Print Assumptions fire_order_sorted.
+
+Theorem fires_exactly_once : forall E t k s s' e d rest oc, Inv E s ->
+  perform E k s t = (s', EFire e d :: rest, oc) ->
+  exists s1 s2 os err, Inv E s1 /\ handle_of s1 e = None /\ (forall d', ~ due s1 e d') /\
+    (forall e' d', e' <> e -> (due s1 e' d' <-> due s e' d')) /\
+    run_script E s1 (script E e) = (s2, os, err) /\
+    (err = true -> rest = map EOut os /\ oc = Aborted /\ s' = s2) /\
+    (err = false -> exists k' evs, k = S k' /\ rest = map EOut os ++ evs /\ Dispatch E t k' s2 evs oc s').
+Proof. exact Proofs.fires_exactly_once. Qed.
+Print Assumptions fires_exactly_once.
+
+Theorem due_functional : forall E s e d1 d2, Inv E s -> due s e d1 -> due s e d2 -> d1 = d2.
+Proof. exact ProofsSched.due_fun. Qed.
+Print Assumptions due_functional.
+
+Theorem erase_prevents : forall E s e s', Inv E s -> exec_basic E s (Erase e) = (s', OOk) ->
+  Inv E s' /\ (forall d, ~ due s' e d) /\ (forall e' d, e' <> e -> (due s' e' d <-> due s e' d)).
+Proof. exact Proofs.erase_prevents. Qed.
+Print Assumptions erase_prevents.
+
+Theorem update_moves : forall E s e t s', Inv E s -> exec_basic E s (UpdUntil e t) = (s', OOk) ->
+  Inv E s' /\ due s' e t /\ (forall d, due s' e d -> d = t) /\
+  (forall e' d, e' <> e -> (due s' e' d <-> due s e' d)).
+Proof. exact Proofs.update_moves. Qed.
+Print Assumptions update_moves.
+
+Theorem next_timeout_sound : forall E s m s' o, Inv E s -> exec_basic E s (NextTimeout m) = (s', o) ->
+  exists r, o = ONext r /\
+    (forall e d, due s e d -> r <= Z.max 0 (d - now s)) /\ (0 <= m -> 0 <= r <= m) /\
+    ((forall e d, ~ due s e d) -> r = m) /\ (forall e d, due s' e d <-> due s e d).
+Proof. exact Proofs.next_timeout_sound. Qed.
+Print Assumptions next_timeout_sound.
+
+Theorem no_internal_error : forall E s e t, Inv E s ->
+  Z.max min_time_wait min_time_update <= t -> t <> 0 -> valid E e = true ->
+  (handle_of s e = None -> snd (exec_basic E s (WaitUntil e t)) = OOk) /\
+  snd (exec_basic E s (UpdUntil e t)) = OOk /\ snd (exec_basic E s (Erase e)) = OOk.
+Proof. exact Proofs.no_internal_error. Qed.
+Print Assumptions no_internal_error.
+
+Theorem params_ok_now : params_ok = true /\ 0 < min_time_wait /\ min_time_wait = min_time_update.
+Proof. exact Proofs.params_ok_now. Qed.
+Print Assumptions params_ok_now.
